@@ -1,6 +1,7 @@
 package main
 
 import (
+	"sync"
 	"fmt"
 	"go/ast"
 	"go/token"
@@ -16,6 +17,7 @@ import (
 )
 
 type Engine struct {
+	declMu   sync.Mutex // guards the declaration analysis cache during concurrent query generation
 	root     string
 	prog     *ssa.Program
 	fset     *token.FileSet
